@@ -245,4 +245,19 @@ PROPS = {
         "level_text": "Single faults are injected into lines known to be valid, so the rejected rule is known by construction; the stream/exit contract and suggestion soundness are invariants checked on every error observed (10^5 per quick run).",
         "level_note": "Trusted: the fault injectors' applicability conditions and the justified-kind table (DESIGN C10).",
     },
+    "C11": {
+        "quick_ms": 20000,
+        "thorough_ms": 300000,
+        "floors": {"agree.ok": 10000, "agree.err": 50000, "build.idempotence-checked": 5000, "reused.after-history": 20000, "reused.explicitly-built": 3000},
+        "rule": "wild (C01 generator) and conventional (globals, defaults, flag subcommands) command trees, no multicall; one long-lived Command "
+                "value is driven through a random history of length 2-10 over {try_get_matches_from_mut(hostile argv), build(), render_help, "
+                "render_long_help, render_usage, clone-and-continue}; after every parse step the result is compared with (i) a fresh value, "
+                "(ii) a second fresh value (repeatability), (iii) a value on which build() was called first: Ok => ArgMatches ==, Err => same "
+                "kind; fresh vs repeat vs reused additionally the identical rendered message (not demanded once build() was called explicitly, "
+                "as the property words it). `format!(\"{cmd:?}\")` after build();build() must equal the dump after build().",
+        "assumptions": COMMON_ASSUME + ["histories use one program name (argv[0] == \"prog\")", "rendered messages compared without colour"],
+        "technique": "metamorphic runtime monitor over operation histories on one Command value, with a fresh value as the executable model",
+        "level_text": "Many short histories (2-10 ops) each checked after every step against the function computed by a fresh value; state leaks show up as a differing result or Debug dump.",
+        "level_note": "Known findings F16/F20 (help-subcommand shape depends on build timing) are keyed on their exact signatures; any other difference is a fresh violation.",
+    },
 }
